@@ -96,7 +96,35 @@ TraceThresholdEmpty ==
         /\ Report(e, Failing({
              <<"C02.empty_class_raises", Len(RelScores(o, e.m)) = 0 /\ e.exc = "ValueError">>}))
 
-Next == TraceNew \/ TraceThreshold \/ TraceThresholdEmpty
+(* threshold setting on an object too large to mirror (1e5 .. 1e6 scores):    *)
+(* the clauses that only need counts.  goal2 = twice the target count        *)
+(* (target r = goal2 / (2 * pop)); low / high = counts beyond both ends.     *)
+Clamp2(g, lo, hi) == IF g < 2 * lo THEN 2 * lo ELSE IF g > 2 * hi THEN 2 * hi ELSE g
+RoundTrip2(c, cb, ca, g) ==
+  LET lo == IF cb < ca THEN cb ELSE ca
+      hi == IF cb < ca THEN ca ELSE cb
+  IN \/ (2 * (c - 1) <= g /\ g <= 2 * (c + 1))
+     \/ (2 * (lo - 1) <= g /\ g <= 2 * (hi + 1))
+TraceThresholdBig ==
+  /\ IsEvent("threshold_big")
+  /\ LET e  == Log[l]
+         n  == Len(e.goal2)
+         ok == e.exc = "" /\ \A f \in {"lin", "lo", "hi"} : Len(e.c[f]) = n
+     IN /\ UNCHANGED store
+        /\ Report(e, Failing({
+             <<"C02.raised", e.exc = "">>,
+             <<"C02.shape_or_value", e.exc # "" \/ ok>>,
+             <<"C02.round_trip", ~ok \/ \A i \in 1..n :
+                  RoundTrip2(e.c.lin[i][1], e.c.lin[i][2], e.c.lin[i][3], Clamp2(e.goal2[i], e.low, e.high))>>,
+             <<"C03.extreme", ~ok \/ \A i \in 1..n : \A f \in {"lin", "lo", "hi"} :
+                  /\ e.goal2[i] <= 0 => e.c[f][i][1] = e.low
+                  /\ e.goal2[i] >= 2 * e.pop => e.c[f][i][1] = e.high>>,
+             <<"C02.metric_lower_le_higher", ~ok \/ \A i \in 1..n : e.c.lo[i][1] <= e.c.hi[i][1]>>,
+             <<"C02.monotone", ~ok \/ \A f \in {"lin", "lo", "hi"} : \A i \in 1..(n - 1) :
+                  e.c[f][i][1] <= e.c[f][i + 1][1]>>,
+             <<"C02.scalar_matches_vector", e.exc # "" \/ e.scalar_same>>}))
+
+Next == TraceNew \/ TraceThreshold \/ TraceThresholdEmpty \/ TraceThresholdBig
 Spec == Init /\ [][Next]_vars
 AllConsumed == TLCGet("stats").diameter - 1 = Len(Log)
 =============================================================================
